@@ -269,8 +269,15 @@ class Translator:
             return self.loop(n)
         if k == 'BreakStmt': return [E('break')]
         if k == 'ContinueStmt': return [E('continue')]
+        if k == 'SwitchStmt':
+            return self.switch(n)
         if k == 'ReturnStmt':
             inner = n.get('inner', [])
+            if inner and (self.f.ret or '').startswith('other:std::complex'):
+                # R22: values of type std::complex are not modelled; the returned expression is not translated and the
+                # function has no result to speak about (only its control flow is decided)
+                self.count('R22.complex_result_dropped')
+                return [E('return', e=None)]
             if inner:
                 e = self.expr(inner[0])
                 pre = self.flush()
@@ -280,6 +287,68 @@ class Translator:
             return [E('return', e=None)]
         # expression statements
         return self.expr_stmt(n)
+
+    def switch(self, n):
+        """R21: switch over a side-effect-free integer variable whose every group of statements ends in break or return
+        (the last group may run off the end), without fall-through and without a nested break that would leave the switch:
+        an if / else-if chain over the case constants.  Anything else is rejected."""
+        inner = n['inner']
+        if n.get('hasInit') or n.get('hasVar') or len(inner) != 2: raise Unsupported('switch with init/var')
+        sel = self.expr(inner[0])
+        if self.pre or sel.k not in ('var', 'field') or sel.t not in ('int', 'uint', 'long', 'ulong'):
+            raise Unsupported('switch selector is not a plain integer variable')
+        body = inner[1]
+        if body.get('kind') != 'CompoundStmt': raise Unsupported('switch body is not a compound statement')
+        groups = []      # (list of case constants or None for default, [AST statements])
+        def open_label(c):
+            # CaseStmt: [ConstantExpr, substatement]; DefaultStmt: [substatement]; labels may nest (case 1: case 2: S)
+            labels = []
+            while c.get('kind') in ('CaseStmt', 'DefaultStmt'):
+                if c['kind'] == 'CaseStmt':
+                    ci = c['inner']
+                    if len(ci) != 2: raise Unsupported('case range')
+                    v = self.expr(ci[0])
+                    if v.k != 'lit' or self.pre: raise Unsupported('case label is not an integer literal')
+                    labels.append(v); c = ci[1]
+                else:
+                    labels.append(None); c = c['inner'][0]
+            return labels, c
+        for c in body.get('inner', []):
+            if c.get('kind') in ('CaseStmt', 'DefaultStmt'):
+                labels, first = open_label(c)
+                groups.append((labels, [first]))
+            else:
+                if not groups: raise Unsupported('statement before the first case label')
+                groups[-1][1].append(c)
+        def has_stray_break(x):
+            if not isinstance(x, dict): return False
+            kk = x.get('kind')
+            if kk == 'BreakStmt': return True
+            if kk in ('WhileStmt', 'ForStmt', 'DoStmt', 'CXXForRangeStmt', 'SwitchStmt', 'LambdaExpr'): return False
+            return any(has_stray_break(y) for y in x.get('inner', []))
+        arms = []; default = None
+        for gi, (labels, stmts) in enumerate(groups):
+            last = stmts[-1].get('kind') if stmts else None
+            if last == 'BreakStmt': stmts = stmts[:-1]
+            elif last != 'ReturnStmt' and gi != len(groups) - 1:
+                raise Unsupported('switch group falls through into the next one')
+            if any(has_stray_break(x) for x in stmts): raise Unsupported('break inside a switch group')
+            blk = []
+            for x in stmts: blk += self.stmt(x)
+            if None in labels:
+                if default is not None or len(labels) != 1: raise Unsupported('default label shared with a case label')
+                default = blk
+            else:
+                cond = None
+                for v in labels:
+                    c1 = E('bin', 'bool', op='==', l=sel, r=self.coerce(v, sel.t))
+                    cond = c1 if cond is None else E('bin', 'bool', op='||', l=cond, r=c1)
+                arms.append((cond, blk))
+        self.count('R21.switch')
+        out = default if default is not None else []
+        for cond, blk in reversed(arms):
+            out = [E('if', cond=cond, then=blk, els=out)]
+        return out
 
     def block_of(self, n):
         if n.get('kind') == 'CompoundStmt':
